@@ -257,6 +257,9 @@ V("C06.V.cobs.encoder_default", "cobs", "EncoderState::default0", {"C06": "D"}, 
 C06M = "postcard/src/lib.rs::verif_c06"
 K("C06.K.api.small", C06M, "verif_c06::api_small", {"C06": "D"}, needs=(REF, PROBES), label="bounded(plain encoding <= 7 bytes)",
   fns=["postcard::to_slice_cobs", "postcard::from_bytes_cobs"], note="to_slice_cobs(v) == ref_cobs(to_slice(v)) ++ [0], one zero, decodes back; every value of the probe enum")
+K("C06.K.api.extend_block", C06M, "verif_c06::api_extend_block", {"C06": "D", "C20": "D"}, needs=(REF, PROBES),
+  fns=["postcard::to_slice_cobs", "postcard::to_vec_cobs", "postcard::ser::flavors::<impl Flavor for Cobs<B>>::try_extend (default or override)"],
+  note="(u8, f32, u8) with every f32 bit pattern: a 4-byte block handed over in one try_extend with zeros in any position is framed exactly like byte-wise pushes; Slice and HVec storages")
 K("C06.K.frames", C06M, "verif_c06::frames", {"C06": "D"}, needs=(REF, PROBES), label="bounded(2 frames)",
   fns=["postcard::take_from_bytes_cobs"], note="two frames back to back, last sentinel present or not: values in order, remainder exactly after each frame")
 K("C07.K.from_bytes_cobs", C06M, "verif_c06::decode_arbitrary", {"C07": "D"}, needs=(REF, PROBES), label="bounded(input<=7 bytes)",
@@ -301,10 +304,13 @@ for t in ["u16", "i16", "u32", "i32", "u64", "i64", "u128", "i128", "usize", "bo
 C20M = "postcard/src/lib.rs::verif_c20"
 K("C20.K.recorder", C20M, "verif_c20::recorder", {"C20": "D"}, needs=(REF, PROBES), fns=["postcard::serialize_with_flavor", "postcard::ser::flavors::Flavor::try_extend (default)"],
   note="user flavours with and without a try_extend override receive exactly plain(v), in order; finalize once; every value of the probe enum")
-for s in ["slice", "hvec", "allocvec"]:
-    K("C20.K.stack.crc_in_cobs_" + s, C20M, "verif_c20::stack_crc_in_cobs_" + s, {"C20": "D"}, needs=(REF, PROBES),
+for s_, tier_ in [("slice", "quick"), ("hvec", "quick"), ("allocvec", "thorough")]:
+    K("C20.K.stack.crc_in_cobs_" + s_, C20M, "verif_c20::stack_crc_in_cobs_" + s_, {"C20": "D"}, needs=(REF, PROBES), tier=tier_,
       fns=["postcard::ser::flavors::crc::CrcModifier", "postcard::ser::flavors::Cobs", "postcard::serialize_with_flavor"],
-      note="CrcModifier(Cobs(storage)) output == ref_cobs(plain ++ LE crc32) ++ [0] (bitwise CRC, reference COBS); slice variant also undoes the layers in reverse")
+      note="CrcModifier(Cobs(storage)) output == ref_cobs(plain ++ crc8) ++ [0] (bitwise CRC, reference COBS), every value of the probe")
+K("C20.K.stack.undo", C20M, "verif_c20::stack_undo", {"C20": "D"}, needs=(REF, PROBES), tier="thorough",
+  fns=["postcard::ser::flavors::crc::CrcModifier", "postcard::ser::flavors::Cobs", "cobs::decode_in_place", "postcard::de::flavors::crc::from_bytes_u8"],
+  note="undoing the layers in reverse order recovers the value")
 C11M = "postcard/src/lib.rs::verif_c11"
 IOF = ["postcard::de::flavors::io::io::IOReader::pop", "postcard::de::flavors::io::io::IOReader::try_take_n", "postcard::de::flavors::io::io::IOReader::finalize",
        "postcard::de::flavors::io::SlidingBuffer::take_n", "postcard::de::flavors::io::SlidingBuffer::complete"]
@@ -384,14 +390,10 @@ for v in ["unit", "newtype"]:
 # hashers over all 26 kinds at every level (no verdict even for depth-2 concrete trees in 5 min, measured). The Route-V stubs
 # D10 (T::SCHEMA read) and D3' (final to_le_bytes) are therefore listed as trusted in the evidence.
 
-# ---------------------------------------------------------------- C15 borrowed vs owned schema (lives in postcard-dyn: needs postcard + postcard-schema)
-C15M = "postcard-dyn/src/lib.rs::verif_c15"
-for k in ["leaves_a", "leaves_b", "option", "seq", "map", "struct_unit", "struct_newtype", "struct_tuple", "struct_struct", "enum", "nest"]:
-    K("C15.K.from." + k, C15M, "verif_c15::k_" + k, {"C15": "D"}, label="bounded(one concrete tree per node kind, depth<=3)",
-      fns=["postcard_schema::schema::owned::<impl From<&DataModelType> for OwnedDataModelType>", "postcard_schema::schema::owned::<impl From<&Data> for OwnedData>",
-           "postcard_schema::schema::owned::<impl From<&NamedField> for OwnedNamedField>", "postcard_schema::schema::owned::<impl From<&Variant> for OwnedVariant>",
-           "serde_derive output for DataModelType / OwnedDataModelType (wire indices)"],
-      note="wire(borrowed) == wire(owned conversion); from_bytes::<Owned>(wire) == conversion; conversion structurally identical", **DYN)
+# C15: no obligation. The one-tree-per-kind Kani harnesses (wire bytes of borrowed vs owned schema, deserialisation, structural
+# comparison) did not produce a verdict even for depth-1 trees within 5-10 min: CBMC unwinds the recursive derived Serialize /
+# Deserialize / PartialEq / From code of the 26-variant recursive enum over every kind at every level. Verus cannot take the
+# conversion either (iter().map().collect()). C15 is listed under not_applicable.
 
 # ---------------------------------------------------------------- accumulator Kani witnesses
 ACCK = "postcard/src/accumulator.rs::verif_acc"
@@ -431,7 +433,7 @@ ASSUMPTIONS = {
     "C16": ["recursive exec hashers carry #[verifier::exec_allows_no_decreases_clause]: their termination is not proved (the spec functions' termination is)", "stub D10: T::SCHEMA is read through schema_of::<T>() (uninterpreted); stub D3': the final .to_le_bytes() of hash_ty_path / hash_ty_path_owned is dropped - both trusted (Kani cannot discharge them: recursion over &'static schema trees is intractable for CBMC, measured)", "the 33-entry tag table is transcribed from the comments of key/hash.rs (the only documentation); sensitivity is proved for the tag STREAM, not for the 64-bit key (collisions exist by counting)"],
     "C17": ["partial: private varint / zig-zag copies (Verus, unbounded) and scalar leaf arms (Kani, complete); the composite arms (Option/Seq/Tuple/Map/Struct/Enum) walking serde_json::Value are NOT covered", "serde_json::Value results are mem::forget-ed in harnesses (drop glue intractable)"],
     "C18": ["partial: leaf kinds only; composite arms and the allocation bound are NOT covered (serde_json / BTreeMap are out of reach of both tools)"],
-    "C20": ["one probe value type per stack; innermost storages Slice / HVec / AllocVec; CRC-32/ISCSI only", A_SERDE],
+    "C20": ["one probe value type per stack; innermost storages Slice / HVec / AllocVec; CRC-8/SMBUS in the stack harnesses", A_SERDE],
 }
 
 # ---------------------------------------------------------------- Cobs<B> flavour, Route V (generic over the storage contract)
@@ -442,3 +444,5 @@ for f, what in [("try_new", "fresh Cobs over an empty storage is the initial mac
       witness="C06.K.cobs.*_slice", note=what)
 V("C06.V.flavor.whole_message", "cobsflavor", "encode_all", {"C06": "D", "C20": "D"}, kind="L",
   note="exec driver over the real flavour: pushing any message byte by byte and finalizing yields cobs(msg) ++ [0] - for every message length and every storage satisfying the contract")
+V("C06.V.flavor.try_extend", "cobsflavor", "Cobs::try_extend", {"C06": "S", "C20": "S"}, fns=["postcard::ser::flavors::<impl Flavor for Cobs<B>>::try_extend (only if an override exists)"],
+  note="OPTIONAL item: absent on the pinned tree (trait default used); if an override appears it must equal byte-wise pushes", kind="O")
